@@ -62,7 +62,6 @@ func VerifC05Tamper() {
 		start += frames[i]
 	}
 	flen := frames[fi]
-	total := len(wireBytes)
 
 	var tampered []byte
 	bodyDamaged := false
@@ -82,11 +81,9 @@ func VerifC05Tamper() {
 	case 2: // delete the whole frame
 		tampered = append(tampered, wireBytes[:start]...)
 		tampered = append(tampered, wireBytes[start+flen:]...)
-		bodyDamaged = start+flen < total
 	case 3: // duplicate the frame
 		tampered = append(tampered, wireBytes[:start+flen]...)
 		tampered = append(tampered, wireBytes[start:]...)
-		bodyDamaged = true
 	case 4: // swap with the next frame
 		verifrt.Assume(fi+1 < nf)
 		nlen := frames[fi+1]
@@ -94,7 +91,6 @@ func VerifC05Tamper() {
 		tampered = append(tampered, wireBytes[start+flen:start+flen+nlen]...)
 		tampered = append(tampered, wireBytes[start:start+flen]...)
 		tampered = append(tampered, wireBytes[start+flen+nlen:]...)
-		bodyDamaged = true
 	default: // insert attacker chosen bytes in front of the frame
 		n := []int{1, 2, 3, 17, 18, 22, 40}[verifrt.Pick("insert_len_class", 0, 6)]
 		tampered = append(tampered, wireBytes[:start]...)
@@ -116,6 +112,12 @@ func VerifC05Tamper() {
 		verifrt.Assert(verifrt.EqualSk(got, sent[:len(got)]), "delivered bytes are a prefix of what the peer wrote")
 		if err != nil {
 			sawErr = true
+		}
+		if i == 0 && bodyDamaged {
+			// The frame's length field is intact and the whole frame was available to this call,
+			// so it ran into the damaged body. (Edits that garble a length field may leave the
+			// decoder waiting for the bogus length; that is allowed, see DESIGN.md section 7.)
+			verifrt.Assert(err != nil, "the Read call that runs into the damaged frame reports an error (together with at most the intact data before it)")
 		}
 	}
 	verifrt.Assert(sawErr, "the damaged / cut stream ends in an error, not in silence")
